@@ -35,6 +35,65 @@ N_SHARDS = 48
 N_SHARDS_THOROUGH = 960
 
 
+UTIL_FUNCS = ["norm_vector", "scalar_triple_product", "plane_basis_from_normal", "transform_point", "transform_points", "transform_directions",
+              "inverse_transform_point", "invert_transform", "cross_product_matrix", "adjoint_from_transform", "convert_segment_to_line",
+              "convert_box_to_vertices", "hesse_normal_form", "barycentric_coordinates_tetrahedron", "make_support_point", "angles_between_vectors",
+              "line_from_pluecker", "convert_rectangle_to_vertices"]
+UTIL_N = 24
+
+
+def util_call(fn, i):
+    """Deterministic argument tuple number i for utility fn (lattice / alphabet values; valid inputs only)."""
+    from distance3d import utils as U, geometry as Gm, minkowski as Mk
+    from . import c15
+    vecs = [np.ascontiguousarray(np.asarray(d, dtype=float) * k) for d in sc.DIRS for k in (1.0, 1e-3, 250.0)]
+    v = vecs[(7 * i) % len(vecs)]
+    w = vecs[(11 * i + 3) % len(vecs)]
+    x = vecs[(13 * i + 5) % len(vecs)]
+    T = sc.pose((5 * i) % len(sc.ROTS), sc.OFFSETS[i % len(sc.OFFSETS)])
+    P = np.ascontiguousarray(np.array([vecs[(j * 3 + i) % len(vecs)] for j in range(5)]))
+    if fn == "norm_vector":
+        return U.norm_vector(np.zeros(3) if i == 0 else v)
+    if fn == "scalar_triple_product":
+        return U.scalar_triple_product(v, w, x)
+    if fn == "plane_basis_from_normal":
+        return U.plane_basis_from_normal(np.ascontiguousarray(v / np.linalg.norm(v)))
+    if fn == "transform_point":
+        return U.transform_point(T, v)
+    if fn == "transform_points":
+        return U.transform_points(T, P)
+    if fn == "transform_directions":
+        return U.transform_directions(T, P)
+    if fn == "inverse_transform_point":
+        return U.inverse_transform_point(T, v)
+    if fn == "invert_transform":
+        return U.invert_transform(T)
+    if fn == "cross_product_matrix":
+        return U.cross_product_matrix(v)
+    if fn == "adjoint_from_transform":
+        return U.adjoint_from_transform(T)
+    if fn == "angles_between_vectors":
+        return U.angles_between_vectors(P, np.ascontiguousarray(P[::-1]))
+    if fn == "convert_segment_to_line":
+        return Gm.convert_segment_to_line(v, np.ascontiguousarray(v + w))
+    if fn == "convert_box_to_vertices":
+        return Gm.convert_box_to_vertices(T, np.array([1.0, 0.5 + 0.25 * (i % 3), 2.0]))
+    if fn == "hesse_normal_form":
+        return Gm.hesse_normal_form(v, np.ascontiguousarray(w / np.linalg.norm(w)))
+    if fn == "barycentric_coordinates_tetrahedron":
+        tet = np.ascontiguousarray(list(c15.TETS.values())[i % 3] @ sc.ROTS[(3 * i) % len(sc.ROTS)].T + sc.OFFSETS[i % len(sc.OFFSETS)])
+        return Gm.barycentric_coordinates_tetrahedron(np.ascontiguousarray(tet.mean(axis=0) + 0.1 * v / np.linalg.norm(v)), tet)
+    if fn == "make_support_point":
+        return Mk.make_support_point(v, w)
+    if fn == "line_from_pluecker":
+        d = v / np.linalg.norm(v)
+        return Gm.line_from_pluecker(np.ascontiguousarray(d), np.ascontiguousarray(np.cross(w, d)))
+    if fn == "convert_rectangle_to_vertices":
+        R = sc.ROTS[(5 * i) % len(sc.ROTS)]
+        return Gm.convert_rectangle_to_vertices(np.ascontiguousarray(w), np.ascontiguousarray(R[:, :2].T), np.array([1.0, 0.5 + 0.5 * (i % 2)]))
+    raise ValueError(fn)
+
+
 def warmup():
     import distance3d.gjk, distance3d.mpr, distance3d.epa, distance3d.distance  # noqa
     import distance3d.containment_test, distance3d.aabb_tree, distance3d.hydroelastic_contact  # noqa
@@ -119,6 +178,10 @@ def _corpus(thorough):
                 C.append({"k": "bodies", "a": fa, "b": fb, "pl": pl, "ob": ob, "g": 0})
     for st in c17.enumerate_states("quick", 0)[0][::(1 if thorough else 4)]:
         C.append({"k": "mesh", "f": st["f"], "p": st["p"]})
+    # jitted utilities of utils.py / geometry.py / minkowski.py that no other family calls directly
+    for fn in UTIL_FUNCS:
+        for i in range(UTIL_N if thorough else 6):
+            C.append({"k": "util", "fn": fn, "i": i})
     # degenerate narrow-phase family of C19 (exact touching, coincident, zero-volume, needles): exception types and finiteness
     from . import c19
     for i, st in enumerate(c19.enumerate_states("quick", 0)[0]):
@@ -235,6 +298,8 @@ def execute(call):
         for j, B in enumerate(ps.alph(kb)):
             tol = 5e-3 if "circle" in name else 1e-9
             out["%s:%d" % (name, j)] = ("prim", _try(lambda: ps.call(name, A, B)[0]), max(1.0, ps.scale_L(A, B)) * (tol / 1e-9))
+    elif k == "util":
+        out[call["fn"]] = ("closed", _try(lambda: util_call(call["fn"], call["i"])))
     elif k == "contain":
         from . import c13
         centre = sc.OFFSETS[call["f"]].copy()
@@ -502,6 +567,12 @@ def finalize(ctx):
                 if rb is None:
                     continue
                 why = compare_entry(name, ra, rb)
+                if why == "exception_differs" and name.startswith("epa") and "exc:AssertionError" in (ra[1], rb[1]):
+                    call = C[int(key)]
+                    if not (call.get("ta") in ("box", "hull", "mesh") and call.get("tb") in ("box", "hull", "mesh")) or call.get("ma") or call.get("mb"):
+                        # EPA's documented polytope-capacity assertion for smooth shapes: whether the 200-face budget is just
+                        # enough is a decision boundary that rounding differences between the modes may cross
+                        why = None
                 if why is not None:
                     call = C[int(key)]
                     ent = name.split(":")[0] if call["k"] == "prim" else ("%s.%s" % (call["k"], name.split("(")[0]))
